@@ -27,4 +27,10 @@ UNITS = [
                        ("accessories_board", "VP_H_ACC_BOARD", ["bidib_get_state_accessories_board"]), ("accessories_dcc", "VP_H_ACC_DCC", ["bidib_get_state_accessories_dcc"]),
                        ("peripherals", "VP_H_PERIPHERALS", ["bidib_get_state_peripherals"]), ("reversers", "VP_H_REVERSERS", ["bidib_get_state_reversers"]),
                        ("track_outputs", "VP_H_TRACK_OUTPUTS", ["bidib_get_state_track_outputs"]), ("trains", "VP_H_TRAINS", ["bidib_get_state_trains"])]
+] + [
+    Unit(name="C17.free_track_state", src="units/C17/free_track.c", functions=["bidib_free_track_state"] + [f.name for f in _t.by_file[csrc.REPO + "/src/state/bidib_state_free.c"] if f.name.startswith("bidib_state_free_single_") and "board" != f.name[-5:] and not f.name.endswith("_train") and "intern" not in f.name and "initial" not in f.name],
+         props=["C17"], no_dfcc=True, kind="bounded", bound="0..2 entities per kind, independently chosen; segments with 0..2 addresses, trains with 0..2 functions; loops unwound completely",
+         remove_bodies=[f for f in _g if f != "bidib_free_track_state"] + ["bidib_state_free", "bidib_state_free_single_board", "bidib_state_free_single_train", "bidib_state_free_single_train_state_intern", "bidib_state_free_single_segment_state_intern"],
+         extra_flags=["--nondet-static", "--unwind", "4", "--memory-leak-check"], covers=2, min_obligations=10, timeout=600,
+         note="CBMC --memory-leak-check: nothing handed out by bidib_get_state stays allocated"),
 ]
